@@ -4,15 +4,14 @@
    specification (Model/C17_Smt.v); `tier_put`, `bia`, `bus`, `buswel`, `merkle_hash` = the model of
    jellyfish.rs / types.rs / tier_framework.rs (Model/C17_Jmt.v).
 
-   Proved at full strength for ONE tier tree (every batch, every history, every batching, unbounded
-   sizes).  NOT proved: the composition of the three tiers (entity -> partition -> substate:
-   `put_at_next_version` = three nested uses of the proved tier with the lower root hash as the leaf
-   value, `lookup` of the lower root version, Reset = start from the empty tree) and
-   `C17_binding`; both are covered by the correspondence check only (see spec/C17.json). *)
+   First the theorems about ONE tier tree (every batch, every history, every batching, unbounded
+   sizes), then the composition of the three tiers as put_at_next_version does it
+   (C17_root_is_commitment, C17_batching) and C17_binding. *)
 From Coq Require Import List NArith Bool Lia.
 Import ListNotations.
 Require Import RV.Model.C17_Jmt RV.Model.C17_Smt RV.Proof.C17_Base RV.Proof.C17_Lists
-               RV.Proof.C17_Merkle RV.Proof.C17_Update RV.Proof.C17_Tier RV.Proof.C17_Root.
+               RV.Proof.C17_Merkle RV.Proof.C17_Update RV.Proof.C17_Tier RV.Proof.C17_Root
+               RV.Proof.C17_Assoc RV.Proof.C17_Compose RV.Proof.C17_Binding.
 Open Scope N_scope.
 
 (* InternalNode::merkle_hash (4 levels over cached child hashes, existence/leaf bitmaps) of a
@@ -105,6 +104,111 @@ Proof.
   - eexists. split; vm_compute; reflexivity.
 Qed.
 
+(* ================= the three tiers: put_at_next_version ================= *)
+(* Hypotheses (all visible): fuel > 0 bounds the key lengths (key_ok: length < fuel); H never returns
+   the placeholder; the entity / partition / sort keys used come from prefix-free universes UE / UP /
+   US of non-empty keys (ok_commit: per commit the entity keys, per entity the partition keys are
+   distinct - they are IndexMap keys - and all keys are key_ok).
+   For EVERY history of DatabaseUpdates (deltas, deletes, partition resets, empty updates) the model
+   of put_at_next_version never panics and the root returned by every commit is db_root of the
+   database obtained by applying the commits so far to the empty database. *)
+Theorem C17_root_is_commitment : forall H fuel, (0 < fuel)%nat -> (forall x, H x <> ZERO_HASH) ->
+  forall US UP UE, pfree US -> ~ US [] -> pfree UP -> ~ UP [] -> pfree UE -> ~ UE [] ->
+  forall us, Forall (ok_commit fuel US UP UE) us ->
+  exists stf, run_db H fuel None us = Ok (spec_roots H fuel [] us, stf) /\
+              db_rel H fuel US UP UE stf (apply_commits [] us).
+Proof.
+  intros H fuel Hf HZ US UP UE PS S0 PP P0 PE E0 us OK.
+  exact (history_ok H fuel Hf HZ US UP UE PS S0 PP P0 PE E0 us None [] eq_refl OK).
+Qed.
+Theorem C17_last_root : forall H fuel us d dflt, us <> [] ->
+  last (spec_roots H fuel d us) dflt = db_root H fuel (apply_commits d us).
+Proof. exact spec_roots_last. Qed.
+
+(* ... and every batching: two histories denoting the same database end with the same root *)
+Theorem C17_batching : forall H fuel, (0 < fuel)%nat -> (forall x, H x <> ZERO_HASH) ->
+  forall US UP UE, pfree US -> ~ US [] -> pfree UP -> ~ UP [] -> pfree UE -> ~ UE [] ->
+  forall us1 us2, Forall (ok_commit fuel US UP UE) us1 -> Forall (ok_commit fuel US UP UE) us2 ->
+  us1 <> [] -> us2 <> [] -> apply_commits [] us1 = apply_commits [] us2 ->
+  exists r1 st1 r2 st2, run_db H fuel None us1 = Ok (r1, st1) /\ run_db H fuel None us2 = Ok (r2, st2) /\
+    last r1 ZERO_HASH = last r2 ZERO_HASH.
+Proof.
+  intros H fuel Hf HZ US UP UE PS S0 PP P0 PE E0.
+  exact (batching_db H fuel Hf HZ US UP UE PS S0 PP P0 PE E0).
+Qed.
+
+(* run_db is put_at_next_version iterated (pinned here so that the statement above is about the model
+   function the correspondence check evaluates) *)
+Theorem C17_run_db_unfold : forall H fuel st u r,
+  run_db H fuel st (u :: r) =
+  match put_at_next_version H fuel st u with
+  | Ok (h, st', _) => match run_db H fuel st' r with
+                      | Ok (hs, stf) => Ok (h :: hs, stf) | Panic => Panic | OutOfFuel => OutOfFuel end
+  | Panic => Panic | OutOfFuel => OutOfFuel
+  end.
+Proof. reflexivity. Qed.
+
+(* fixed-length keys (database node keys, partition numbers) are such a universe *)
+Theorem C17_fixed_length_universe : forall n, pfree (fun k => length k = n).
+Proof. exact pfree_fixed_length. Qed.
+
+(* binding: equal roots => equal databases.  H collision-free (injective), 32-byte outputs, never
+   the placeholder; side condition (key_adm): keys are valid nibble strings of whole bytes whose
+   byte length is not 32 - the leaf pre-image key||value_hash and the internal pre-image left||right
+   are not domain separated in the code, so 32-byte keys are the one length where a leaf and an
+   internal node could share a pre-image.  wf_d: keys distinct, prefix-free per map, admissible,
+   shorter than n. *)
+Theorem C17_binding : forall H,
+  (forall x y, H x = H y -> x = y) -> (forall x, length (H x) = 32%nat) -> (forall x, H x <> ZERO_HASH) ->
+  forall n d1 d2, wf_d n d1 -> wf_d n d2 ->
+  db_root H n d1 = db_root H n d2 -> forall ek pk sk, get3 d1 ek pk sk = get3 d2 ek pk sk.
+Proof. exact db_binding. Qed.
+Theorem C17_binding_tier : forall H,
+  (forall x y, H x = H y -> x = y) -> (forall x, length (H x) = 32%nat) -> (forall x, H x <> ZERO_HASH) ->
+  forall n S1 S2, keys_wf n S1 -> keys_wf n S2 ->
+  (forall k v, In (k, v) S1 -> length v = 32%nat) -> (forall k v, In (k, v) S2 -> length v = 32%nat) ->
+  smt_root H n S1 = smt_root H n S2 -> forall k v, In (k, v) S1 <-> In (k, v) S2.
+Proof. exact tier_binding. Qed.
+(* the key mapper's keys: byte strings; every length except 32 bytes is admissible (node keys 50,
+   partition numbers 1, field keys 1, map keys 20 + |key| i.e. all but 12-byte keys, sorted keys
+   22 + |key|) *)
+Theorem C17_key_adm_of_bytes : forall bs, Forall (fun b => b < 256) bs -> length bs <> 32%nat ->
+  key_adm (nibbles_of_bytes bs).
+Proof. exact key_adm_of_bytes. Qed.
+
+Ltac key_tac := unfold key_ok; split; [reflexivity|split; [repeat constructor; lia|cbn; lia]].
+Ltac pupd_tac := cbn [ok_pupd]; let y := fresh "y" in let Hy := fresh "Hy" in
+  intros y Hy; cbn in Hy; repeat (destruct Hy as [<-|Hy]; [cbn [fst]; key_tac|]); destruct Hy.
+Ltac eupd_tac := split; [cbn; repeat constructor; cbn; intuition discriminate|
+  let z := fresh "z" in let Hz := fresh "Hz" in
+  intros z Hz; cbn in Hz; repeat (destruct Hz as [<-|Hz]; [cbn [fst snd]; split; [key_tac|pupd_tac]|]); destruct Hz].
+Ltac commit_tac := split; [cbn; repeat constructor; cbn; intuition discriminate|
+  let w := fresh "w" in let Hw := fresh "Hw" in
+  intros w Hw; cbn in Hw; repeat (destruct Hw as [<-|Hw]; [cbn [fst snd]; split; [key_tac|eupd_tac]|]); destruct Hw].
+
+(* non-vacuity of the three-tier theorem: a history with two entities, a reset, a delete that empties
+   an entity and an empty delta satisfies ok_commit and the model returns the specification roots *)
+Example C17_nonvacuous_db :
+  let H := fun l : list N => 1 :: l in
+  let US := fun k : list N => length k = 2%nat in
+  let UE := fun k : list N => length k = 4%nat in
+  let us : list db_updates :=
+      [[([1;2;3;4], [([0;6], Delta [([1;2], Some [30]); ([1;3], Some [31])])]);
+        ([1;2;3;5], [([0;6], Delta [([1;2], Some [5])]); ([0;7], Delta [])])];
+       [([1;2;3;4], [([0;6], Delta [([1;2], None); ([1;3], Some [32])])]);
+        ([1;2;3;5], [([0;6], Reset [])])]] in
+  (forall x, H x <> ZERO_HASH) /\ Forall (ok_commit 9 US US UE) us /\
+  exists stf, run_db H 9 None us = Ok (spec_roots H 9 [] us, stf) /\
+              apply_commits [] us = [([1;2;3;4], [([0;6], [([1;3], [32])])])].
+Proof.
+  cbv zeta. split; [intros x E; discriminate|]. split.
+  - repeat (constructor; [commit_tac|]). constructor.
+  - eexists. split; vm_compute; reflexivity.
+Qed.
+
+Print Assumptions C17_root_is_commitment.
+Print Assumptions C17_batching.
+Print Assumptions C17_binding.
 Print Assumptions C17_merkle_hash_is_smt.
 Print Assumptions C17_jmt_canonical.
 Print Assumptions C17_batch_update_refines.
